@@ -165,20 +165,14 @@ impl AggregateExecutionEngine {
 
                     match aggregate {
                         Aggregate::Min(_) => {
-                            group_value.modify_same_type_numeric_nullable(
-                                &column_value,
-                                |x, y| { *x = (*x).min(y) },
-                                |x, y| { *x = (*x).min(y) },
-                                |x, y| { *x = (*x).min(y) }
-                            );
+                            if group_value.is_null() || column_value < *group_value {
+                                *group_value = column_value;
+                            }
                         }
                         Aggregate::Max(_) => {
-                            group_value.modify_same_type_numeric_nullable(
-                                &column_value,
-                                |x, y| { *x = (*x).max(y) },
-                                |x, y| { *x = (*x).max(y) },
-                                |x, y| { *x = (*x).max(y) }
-                            );
+                            if group_value.is_null() || column_value > *group_value {
+                                *group_value = column_value;
+                            }
                         }
                         _ => { unimplemented!(); }
                     };
